@@ -11,7 +11,7 @@ from . import registry
 from .assemble import Unit, ExtractError
 
 ROOT = R.ROOT
-EVID = os.path.join(ROOT, 'evidence')
+EVID = os.environ.get('VERIF_EVIDENCE_DIR') or os.path.join(ROOT, 'evidence')   # the override is used only by tools/run_seeds.sh
 REPLAYS = os.path.join(ROOT, 'replays')
 
 
